@@ -4,9 +4,11 @@ package main
 import (
 	"bufio"
 	"bytes"
+	"context"
 	"crypto/sha1"
 	"fmt"
 	"io"
+	"net"
 	"net/url"
 	"os"
 	"os/exec"
@@ -15,6 +17,7 @@ import (
 	"strconv"
 	"strings"
 	"sync"
+	"time"
 
 	"github.com/gobwas/httphead"
 	"github.com/gobwas/ws"
@@ -239,6 +242,87 @@ func clientSessionX(tag byte, n int, shared bool) func(l logger) {
 	}
 }
 
+// ---- wss dial: the TLS layer the default dialer puts on top of the connection ------------
+
+// helloConn records what the TLS client writes first (its ClientHello) and then ends the
+// connection: enough to see which server name the dial asked for.
+type helloConn struct {
+	l     logger
+	hello []byte
+}
+
+func (c *helloConn) Write(p []byte) (int, error) {
+	c.l.Yield()
+	c.hello = append(c.hello, p...)
+	return len(p), nil
+}
+func (c *helloConn) Read(p []byte) (int, error)       { c.l.Yield(); return 0, io.EOF }
+func (c *helloConn) Close() error                     { return nil }
+func (c *helloConn) LocalAddr() net.Addr              { return &net.TCPAddr{} }
+func (c *helloConn) RemoteAddr() net.Addr             { return &net.TCPAddr{} }
+func (c *helloConn) SetDeadline(time.Time) error      { return nil }
+func (c *helloConn) SetReadDeadline(time.Time) error  { return nil }
+func (c *helloConn) SetWriteDeadline(time.Time) error { return nil }
+
+// sniOf extracts the server_name extension from a TLS ClientHello record ("" if absent).
+func sniOf(b []byte) string {
+	if len(b) < 5+4+2+32+1 || b[0] != 22 || b[5] != 1 {
+		return "<no client hello>"
+	}
+	p := b[5+4+2+32:]
+	skip := func(lenBytes int) bool {
+		if len(p) < lenBytes {
+			return false
+		}
+		n := 0
+		for i := 0; i < lenBytes; i++ {
+			n = n<<8 | int(p[i])
+		}
+		if len(p) < lenBytes+n {
+			return false
+		}
+		p = p[lenBytes+n:]
+		return true
+	}
+	if !skip(1) || !skip(2) || !skip(1) || len(p) < 2 {
+		return "<malformed hello>"
+	}
+	p = p[2:]
+	for len(p) >= 4 {
+		typ, n := int(p[0])<<8|int(p[1]), int(p[2])<<8|int(p[3])
+		if len(p) < 4+n {
+			break
+		}
+		if typ == 0 && n >= 5 {
+			return string(p[4+5 : 4+n])
+		}
+		p = p[4+n:]
+	}
+	return ""
+}
+
+// wssSession dials wss://<host> twice with a dialer that has no TLS configuration of its own
+// (so the library's package-level default configuration is used) and logs the server name
+// each TLS handshake asked for: it has to be the host of that very dial.
+func wssSession(host string, viaDefault bool) func(l logger) {
+	return func(l logger) {
+		for i := 0; i < 2; i++ {
+			c := &helloConn{l: l}
+			d := ws.Dialer{}
+			if viaDefault {
+				d = ws.DefaultDialer
+			}
+			d.NetDial = func(ctx context.Context, network, addr string) (net.Conn, error) { return c, nil }
+			_, _, _, err := d.Dial(context.Background(), "wss://"+host+"/chat")
+			sni := sniOf(c.hello)
+			l.Logf("wss dial %d host=%s failed=%v sni=%q", i, host, err != nil, sni)
+			if sni != host {
+				l.Logf("ASSERT-FAILED: TLS server name %q sent for a dial to %q", sni, host)
+			}
+		}
+	}
+}
+
 // utilSession: writer pool, cipher writer, compression helpers, close handling, compiled frames.
 func utilSession(tag byte, n int) func(l logger) {
 	return func(l logger) {
@@ -304,6 +388,8 @@ func sessions() map[string]session {
 	add("S2L", clientSession('f', 5000))
 	add("S2s", clientSessionX('g', 30, true))
 	add("S2t", clientSessionX('h', 30, true))
+	add("S4a", wssSession("host-a.example", false))
+	add("S4b", wssSession("host-b.example", true))
 	add("S3", utilSession(1, 150))
 	add("S3b", utilSession(2, 150))
 	add("S3L", utilSession(3, 5000))
@@ -517,6 +603,13 @@ func main() {
 					if strings.Join(a, "\n") != strings.Join(ref[n], "\n") {
 						return explore.Failf("solo-run-not-deterministic", "%s", n)
 					}
+					// a session run alone after other sessions have run in this process: its own
+					// assertions (values that must not depend on what other connections did)
+					for _, line := range a {
+						if strings.HasPrefix(line, "ASSERT-FAILED") {
+							return explore.Failf("session-sees-another-connections-values", "%s: %s", n, line)
+						}
+					}
 					if strings.Join(b, "\n") != strings.Join(a, "\n") {
 						return explore.Failf("solo-run-depends-on-pool-mode", "%s:\nfresh: %v\nlifo:  %v", n, a, b)
 					}
@@ -526,7 +619,7 @@ func main() {
 			t.Outcome("deterministic")
 			t.Note("each session alone: same log on the non-recycling pool twice and on the poisoning LIFO pool")
 		})
-		mixes2 := [][]string{{"S2s", "S2t"}, {"S1", "S2"}, {"S1", "S1b"}, {"S2", "S2b"}, {"S1", "S3"}, {"S2", "S3"}, {"S3", "S3b"}, {"S1L", "S2L"}, {"S1L", "S1"}, {"S3L", "S2"}, {"S3L", "S3"}}
+		mixes2 := [][]string{{"S2s", "S2t"}, {"S4a", "S4b"}, {"S1", "S2"}, {"S1", "S1b"}, {"S2", "S2b"}, {"S1", "S3"}, {"S2", "S3"}, {"S3", "S3b"}, {"S1L", "S2L"}, {"S1L", "S1"}, {"S3L", "S2"}, {"S3L", "S3"}}
 		mixes3 := [][]string{{"S1", "S2", "S3"}, {"S1", "S1b", "S2"}, {"S2", "S2b", "S3"}}
 		r.Part("E1-two-sessions-preemption-bounded", func(t *explore.T) {
 			b := t.Pick(2, 3)
@@ -555,7 +648,9 @@ func main() {
 		})
 		r.Part("E4-free-running-race-pass(supplementary,sampling)", func(t *explore.T) {
 			bin := os.Getenv("VERIF_RACE_BIN")
-			t.Do(func() string { return "race-detector pass: 9 sessions x 32 goroutines x GOMAXPROCS 1/4/16, real sync.Pool" }, func() *explore.Fail {
+			t.Do(func() string {
+				return "race-detector pass: 9 sessions x 32 goroutines x GOMAXPROCS 1/4/16, real sync.Pool"
+			}, func() *explore.Fail {
 				if bin == "" {
 					return explore.Failf("race-binary-missing", "VERIF_RACE_BIN not set (run through ./vcheck)")
 				}
